@@ -188,32 +188,103 @@ def td2(ctx, R):
         void = prog.cls("types.Void")
         vsize = prog.class_const(void, "size")
         seg = prog.cls("writer.TdmsSegment")
-        preds = []
+        from .sym import Sym, contains
+        from .region import region as _region
+        VOID = ("class", void.qual)
+
+        def fn_mentions_void(q):
+            f = prog.functions.get(q) if isinstance(q, str) else None
+            return f is not None and any(isinstance(x, ast.Name) and x.id == "Void" for g in _region(ctx, f, depth=1) for x in ast.walk(g.node))
+
+        def is_void_test(g):
+            # a test against Void, written out or behind a predicate (function or method) that makes it
+            def hit(y):
+                if y == VOID:
+                    return True
+                if isinstance(y, tuple) and len(y) >= 2 and y[0] == "call" and fn_mentions_void(y[1]):
+                    return True
+                if isinstance(y, tuple) and len(y) >= 3 and y[0] == "method" and isinstance(y[1], str):
+                    return any(fn_mentions_void(m.qual) for m in prog.functions.values() if m.name == y[1] and m.module is wmod)
+                return False
+            return contains(g, hit)
         for mname in ("raw_data_index", "_data_size", "_write_data"):
             f = seg.methods.get(mname)
             if f is None:
                 raise AnchorMissing("writer.TdmsSegment.%s" % mname)
-            for n in walk_body(f.node):
-                if isinstance(n, ast.If):
-                    preds.append((f, n.test))
+            # the places where an object's values enter the arithmetic: reads of <obj>.data and calls of the module's size / write helpers
+            sites = [n for n in walk_body(f.node) if (isinstance(n, ast.Attribute) and n.attr == "data" and isinstance(n.ctx, ast.Load)) or
+                     (isinstance(n, ast.Call) and isinstance(n.func, ast.Name) and n.func.id in ("write_data", "object_data_size"))]
+            key = "%s::Void excluded" % f.qual
+            if isinstance(vsize, int):
+                R.ok(key, f.where(), "Void has a size")
+                continue
+            if not sites:
+                R.unrecognised(key, f.where(), "no read of <object>.data and no call of write_data / object_data_size: where the object's values are used was not recognised")
+                continue
+            sy = Sym(prog, f, seg, inline=False)
+            open_site = None
+
+            def filtered_in_comprehension(n):
+                # the site is the element of a comprehension whose filter makes the test
+                from .flow import resolve_call
+                def source_filters(it):
+                    # the objects are drawn from a helper that makes the test:  for obj in self._objects_with_raw_data()
+                    return any(fn_mentions_void(h.qual) for c in ast.walk(it) if isinstance(c, ast.Call) for h, _k in resolve_call(prog, f, seg, c))
+                for comp in ast.walk(f.node):
+                    if isinstance(comp, ast.For) and any(x is n for st_ in comp.body for x in ast.walk(st_)) and source_filters(comp.iter):
+                        return True
+                    if isinstance(comp, (ast.GeneratorExp, ast.ListComp, ast.SetComp, ast.DictComp)) and any(x is n for x in ast.walk(comp)):
+                        for g in comp.generators:
+                            if source_filters(g.iter):
+                                return True
+                            for t in g.ifs:
+                                if any(isinstance(x, ast.Name) and x.id == "Void" for x in ast.walk(t)):
+                                    return True
+                                for c in [x for x in ast.walk(t) if isinstance(x, ast.Call)]:
+                                    if any(fn_mentions_void(h.qual) for h, _k in resolve_call(prog, f, seg, c)):
+                                        return True
+                return False
+            for n in sites:
+                _env, guards = sy.env_at(n)
+                if not any(is_void_test(g) for g in guards) and not filtered_in_comprehension(n):
+                    open_site = n
                     break
-        def excludes_void(f, test):
-            txt = unparse(test)
-            if "Void" in txt:
-                return True
-            for c in [x for x in ast.walk(test) if isinstance(x, ast.Call)]:
-                r = prog.resolve_expr(f.module, c.func)
-                if r and r[0] == "func" and "Void" in unparse(r[1].node):
-                    return True
-            return False
-        for f, test in preds:
-            good = isinstance(vsize, int) or excludes_void(f, test)
-            R.check(good, "%s::Void excluded" % f.qual, f.where(test), "objects whose data type is Void (empty array without a TDMS type) are written without raw data",
-                    "ChannelObject.data_type falls back to Void for an empty array without a TDMS type, Void.size is None, and `%s` lets such "
-                    "an object into the size arithmetic (TypeError when writing or defragmenting an empty string/timestamp channel)" % unparse(test))
+            R.check(open_site is None, key, f.where(open_site) if open_site is not None else f.where(),
+                    "objects whose data type is Void (empty array without a TDMS type) are written without raw data",
+                    "ChannelObject.data_type falls back to Void for an empty array without a TDMS type, Void.size is None, and `%s` is reached "
+                    "without a test that excludes Void: such an object gets into the size arithmetic (TypeError when writing or defragmenting an "
+                    "empty string/timestamp channel)" % (unparse(open_site)[:60] if open_site is not None else ""))
 
 
 # ---------------------------------------------------------------------------
+
+def find_scaling_builder(prog):
+    """the function that builds a channel's scaling from a properties mapping: scaling._get_channel_scaling, or - renamed / made a
+    method - the one function of nptdms.scaling that constructs MultiScaling"""
+    try:
+        return prog.func("scaling._get_channel_scaling")
+    except AnchorMissing:
+        pass
+    cands = [f for f in prog.functions.values() if f.module.name == "scaling" and any(
+        isinstance(c, ast.Call) and (call_name(c) or "").split(".")[-1] == "MultiScaling" for c in walk_body(f.node))]
+    if len(cands) == 1:
+        return cands[0]
+    raise AnchorMissing("function scaling._get_channel_scaling (or the one function that constructs MultiScaling)")
+
+
+def find_scale_counter(prog):
+    """the function that determines the number of scales: scaling._get_number_of_scalings, or the one function of nptdms.scaling that
+    reads the NI_Number_Of_Scales property"""
+    try:
+        return prog.func("scaling._get_number_of_scalings")
+    except AnchorMissing:
+        pass
+    cands = [f for f in prog.functions.values() if f.module.name == "scaling" and any(
+        isinstance(c, ast.Constant) and c.value == "NI_Number_Of_Scales" for c in ast.walk(f.node))]
+    if len(cands) == 1:
+        return cands[0]
+    raise AnchorMissing("function scaling._get_number_of_scalings (or the one function that reads NI_Number_Of_Scales)")
+
 
 def _constructed_scalings(prog):
     from .rules_dtype import _scaling_classes
@@ -271,7 +342,8 @@ def sd1(ctx, R):
     if v[0] == "opaque":
         raise AnchorMissing("%s: body not in normal form" % cs.qual)
     lv = leaves(v)
-    RAW = prog.try_fold(prog.module("scaling").assigns.get("RAW_DATA_INPUT_SOURCE"), prog.module("scaling"))
+    _r = prog.resolve_name(prog.module("scaling"), "RAW_DATA_INPUT_SOURCE")       # defined here or imported from another module
+    RAW = prog.try_fold(_r[1], _r[2]) if _r and _r[0] == "const" else None
     # roles: the scale index is the parameter compared with the raw-data marker; the raw data is what `.data` of is returned then;
     # the scaling is the receiver of the scale calls
     idx = raw = S = None
@@ -349,7 +421,7 @@ def sd1(ctx, R):
         R.check(ok, q + "::final scale", f.where(), "output is scale len(scalings) - 1",
                 "the output scale is `%s`, not the last scale" % (show(b["args"][0])[:80] if b and b["args"] else show(val)[:80]))
     # every scale type name is built by its own class
-    gcs = prog.func("scaling._get_channel_scaling")
+    gcs = find_scaling_builder(prog)
     pairs = {k: v[0].name for k, v in keyed_constructions(prog, module_region(prog, gcs)).items()}
     expected = {"Polynomial": "PolynomialScaling", "Linear": "LinearScaling", "RTD": "RtdScaling", "Strain": "StrainScaling",
                 "Table": "TableScaling", "Thermistor": "ThermistorScaling", "Thermocouple": "ThermocoupleScaling", "Add": "AddScaling",
@@ -367,7 +439,7 @@ def ns1(ctx, R):
     from .sem import leaves, flat_conds, match, W, find
     from .sym import Sym, show
     prog = ctx.prog
-    fi = prog.func("scaling._get_number_of_scalings")
+    fi = find_scale_counter(prog)
     P = ("param", fi.params[0])
     v = Sym(prog, fi, None).function_value()
     if v[0] == "opaque":
@@ -376,15 +448,26 @@ def ns1(ctx, R):
     NAME = ("const", "NI_Number_Of_Scales")
     explicit_ok = False
     fallback = []
+    def is_lookup(x):
+        # properties[NAME] / properties.get(NAME[, default])
+        return x == ("sub", P, NAME) or (match(("method", "get", P, W(), W()), x) is not None and x[3] and x[3][0] == NAME)
+    explicit_seen = False
     for conds, leaf in leaves(v):
         fc = flat_conds(conds)
-        if ("cmp", "in", NAME, P) in fc:
-            b = match(("call", "int", (W("x"),), ()), leaf)
-            explicit_ok = b is not None and (b["x"] == ("sub", P, NAME) or match(("method", "get", P, W(), W()), b["x"]) is not None)
+        b = match(("call", "int", (W("x"),), ()), leaf)
+        if ("cmp", "in", NAME, P) in fc or (b is not None and is_lookup(b["x"])):
+            explicit_seen = True
+            # taken when the property is there: the membership test, or the looked-up value compared with the default / None
+            present = ("cmp", "in", NAME, P) in fc or any(isinstance(c, tuple) and len(c) == 4 and c[0] == "cmp" and c[1] in ("is not", "!=") and is_lookup(c[2])
+                                                          for c in fc)
+            explicit_ok = explicit_ok or (b is not None and is_lookup(b["x"]) and present)
         else:
             fallback.append(leaf)
-    R.check(explicit_ok, "scaling._get_number_of_scalings::explicit count", fi.where(),
-            "NI_Number_Of_Scales is used when present", "NI_Number_Of_Scales is not honoured")
+    if explicit_ok or not explicit_seen:
+        R.check(explicit_ok, "scaling._get_number_of_scalings::explicit count", fi.where(),
+                "NI_Number_Of_Scales is used when present", "NI_Number_Of_Scales is not honoured")
+    else:
+        R.unrecognised("scaling._get_number_of_scalings::explicit count", fi.where(), "NI_Number_Of_Scales is read, but how its presence is tested was not recognised")
     if not fallback:
         raise AnchorMissing("scaling._get_number_of_scalings: fallback return")
     key = "scaling._get_number_of_scalings::inferred count"
@@ -402,6 +485,13 @@ def ns1(ctx, R):
                 if e is not None and match(("method", "match", W(), (bv,), ()), e["m"]) is not None \
                         and (it == P or it == ("method", "keys", P, (), ())) and all(c == ("cmp", "is not", e["m"], ("const", None)) for c in conds) and conds:
                     good = True
+                # the matches are produced first:  map(<regex>.match, keys)
+                mp = match(("call", "map", (W("f"), W("keys")), ()), it)
+                if e is not None and mp is not None and e["m"] == bv and (mp["keys"] == P or mp["keys"] == ("method", "keys", P, (), ())) \
+                        and all(c == ("cmp", "is not", bv, ("const", None)) for c in conds) and conds:
+                    fdef = prog.module("scaling").assigns.get(mp["f"][1]) if mp["f"][0] in ("global", "name") else None
+                    if isinstance(fdef, ast.Attribute) and fdef.attr == "match":
+                        good = True
         if good:
             R.ok(key, fi.where(), "max(index) + 1 over NI_Scale[i]_Scale_Type properties")
         elif find(body, ("len", W())) or find(body, ("sum", W(), W(), W(), W())) and not find(body, ("call", "max", W(), W())):
@@ -413,11 +503,18 @@ def ns1(ctx, R):
                         "which is the output, is dropped" % show(body)[:160])
         else:
             R.undecided(key, fi.where(), "fallback expression `%s` not understood" % show(body)[:160])
-    rx = prog.module("scaling").assigns.get("_scale_regex")
-    pat = None
-    if isinstance(rx, ast.Call) and rx.args:
-        pat = prog.try_fold(rx.args[0], prog.module("scaling"))
-    R.check(pat == r"NI_Scale\[(\d+)\]_Scale_Type", "scaling._scale_regex", fi.where(), "pattern %r" % pat, "scale index pattern changed to %r" % pat)
+    # the compiled pattern of the scale type properties, wherever it is kept (module constant, class attribute)
+    smod = prog.module("scaling")
+    pats = []
+    for nm, e in list(smod.assigns.items()) + [(k, v) for ci in prog.classes.values() if ci.module is smod for k, v in ci.attrs.items()]:
+        if isinstance(e, ast.Call) and (call_name(e) or "").split(".")[-1] == "compile" and e.args:
+            pv = prog.try_fold(e.args[0], smod)
+            if isinstance(pv, str) and "NI_Scale" in pv:
+                pats.append((nm, pv))
+    if not pats:
+        R.unrecognised("scaling._scale_regex", fi.where(), "no compiled pattern mentioning NI_Scale kept as a constant of nptdms.scaling")
+    for nm, pat in pats:
+        R.check(pat == r"NI_Scale\[(\d+)\]_Scale_Type", "scaling._scale_regex", fi.where(), "pattern %r" % pat, "scale index pattern changed to %r" % pat)
 
 
 def _constructs_scaling(prog, f, c):
@@ -434,7 +531,7 @@ def st1(ctx, R):
     from .sem import module_region, find, W
     from .sym import Sym, show
     prog = ctx.prog
-    fi = prog.func("scaling._get_channel_scaling")
+    fi = find_scaling_builder(prog)
     cfg = ctx.cfg(fi)
     sy = Sym(prog, fi, None)
     P = ("param", fi.params[0])
@@ -482,7 +579,7 @@ def ao1(ctx, R):
     from .sym import Sym, show
     prog = ctx.prog
     gs = prog.func("scaling.get_scaling")
-    gcs = prog.func("scaling._get_channel_scaling")
+    gcs = find_scaling_builder(prog)
     v = Sym(prog, gs, None, stack=(gcs.qual,)).function_value()
     b = match(("first", ("comp", W("elt"), W("bv"), W("it"), W("conds")), W("rest")), v)
     params = [("param", p) for p in gs.params[:3]]
